@@ -255,6 +255,13 @@ def step (st : State) (w : List String) : State × String :=
       let mine : Bytes := [UInt8.ofNat (i / 3), UInt8.ofNat (i % 3)]
       if (hitReply { id := i, question := mine } { question := stored, answers := [] }).question == mine then "q" else "x"
     (st, "".intercalate outs)
+  | ["usrv", "rl", _mode, pat] =>
+    -- behind the limiter too — answered or told BADCOOKIE — a reply's cookie is its own query's
+    let outs := (pat.toList.zipIdx).map fun (c, i) =>
+      match rlReplyCookie (if c == 'c' then some (i + 1) else none) (some 999) with
+      | some v => "c00c1e" ++ String.ofList ((List.range 10).map fun d => nibble ((v / 16 ^ (9 - d)) % 16))
+      | none => "-"
+    (st, ",".intercalate outs)
   | ["usrv", "cookie", _mode, pat] =>
     let qs : List EdnsReq := (pat.toList.zipIdx).map fun (c, i) =>
       if c == 'c' then { hasOpt := true, cookie := some (i + 1), doBit := i % 3 == 0 }
